@@ -161,7 +161,7 @@ def run(ctx):
     # HEIGHTS_SKIP_MC=1 (development aid for mutation experiments): only the smallest exhaustive run; the evidence says so
     skip_mc = os.environ.get("HEIGHTS_SKIP_MC") == "1"
     ex_cfgs = ["HEIGHTS_skipcorridor_repaired.cfg"] if skip_mc else ["HEIGHTS_small.cfg", "HEIGHTS_skipcorridor_repaired.cfg"] if quick else \
-              ["HEIGHTS_small.cfg", "HEIGHTS_skipcorridor_repaired.cfg", "HEIGHTS_r1.cfg", "HEIGHTS_full.cfg", "HEIGHTS_h3.cfg"]
+              ["HEIGHTS_small.cfg", "HEIGHTS_skipcorridor_repaired.cfg", "HEIGHTS_r1.cfg", "HEIGHTS_rm.cfg", "HEIGHTS_full.cfg", "HEIGHTS_h3.cfg"]
     f_ex = [(c, pool.submit(ctx.tlc, "HEIGHTS_mc", c, must_pass=True, timeout=900 if quick else 3000, workers=min(w, 3 if quick else 4),
                             heap="4g", label=c[:-4])) for c in ex_cfgs]
     # ---- 2. non-vacuity -----------------------------------------------------------------------------
@@ -302,7 +302,8 @@ def run(ctx):
         "the node is driven single-threaded through handleMsg / handleTimeout with the driver emulating receiveRoutine (WAL write first); the "
         "ticker is a stub, timeouts fire when the schedule says so; concurrency of the real goroutines is not explored here",
         "application: in-memory kvstore whose EndBlock answers with the schedule's validator updates (only batches the validator set accepts; "
-        "the node under test is never removed); CreateEmptyBlocks = true (needProofBlock / WaitForTxs paths are not exercised)",
+        "the seeded walks also remove and re-add the node under test, the TLC menus do not); CreateEmptyBlocks = true (needProofBlock / "
+        "WaitForTxs paths are not exercised)",
         "restart = stop at a height boundary (step NewHeight, nothing of the new height handled) and a new State on the same stores and WAL "
         "with catchupReplay; crashes inside finalizeCommit are C05's subject",
         "validator-set arithmetic is TMValSet's (C08) transcription; universe of 5 validators, rounds 0..2, heights up to 9",
